@@ -56,6 +56,11 @@ class World:
         self.home = {}          # id(grouping tuple) -> Frame it is defined in
         self.level = {}         # id(grouping tuple) -> tower level
         self.groupings = []
+        self.uses_log = []      # (frame, reference, target) of every uses written so far
+
+    def stable(self):
+        """every reference written so far still denotes the grouping it was written for"""
+        return all(self.resolve(f, ref) is g for f, ref, g in self.uses_log)
 
     def name(self, stem):
         self.uid += 1
@@ -207,7 +212,9 @@ def wrap_use(w, frame, g, kinds):
         return None
     if r.random() < 0.5:
         inner.append(leaf(w))
-    inner.append(uses(r.choice(refs), g))
+    ref = r.choice(refs)
+    inner.append(uses(ref, g))
+    w.uses_log.append((f, ref, g))
     if r.random() < 0.3:
         inner.append(leaf(w))
     if kind == "container":
@@ -274,6 +281,11 @@ def gen_world(rnd, depth=None):
                 nm = r.choice(pool) if r.random() < 0.6 else w.name("g")
                 if nm in home.groupings:
                     continue
+                home.groupings[nm] = None
+                ok = w.stable()
+                del home.groupings[nm]
+                if not ok:
+                    continue        # the new definition would capture a reference written earlier
                 if home.parent is None:
                     # a top-level name is defined in at most one submodule of a family (plus possibly the owner)
                     others = [f for f in w.family_tops(home.mod) if f is not home and f.mod["belongs"] and nm in f.groupings]
@@ -285,7 +297,8 @@ def gen_world(rnd, depth=None):
             w.gid += 1
             body = []
             g = ("grouping", w.gid, nm, body)
-            # the body is built before g is visible, so it cannot refer to itself
+            log_mark = len(w.uses_log)
+            # the body is built before g is visible; the definition is dropped again below if it captures a reference
             gf = home.child(body, "grouping")
             body += plain_nodes(w, 2)
             lower = [x for x in w.groupings if w.level[id(x)] < lvl]
@@ -303,7 +316,9 @@ def gen_world(rnd, depth=None):
                 if id(t) not in direct and r.random() < 0.5:
                     refs = w.refs_to(gf, t)
                     if refs:
-                        body.insert(r.randint(0, len(body)), uses(r.choice(refs), t))
+                        ref = r.choice(refs)
+                        body.insert(r.randint(0, len(body)), uses(ref, t))
+                        w.uses_log.append((gf, ref, t))
                         direct.add(id(t))
                         continue
                 n = wrap_use(w, gf, t, ["container", "container", "list", "choicecase", "rpcin", "rpcout"])
@@ -314,14 +329,22 @@ def gen_world(rnd, depth=None):
                 w.gid += 1
                 ib = plain_nodes(w, 1)
                 ig = ("grouping", w.gid, r.choice(pool + [w.name("ng")]), ib)
-                if ig[2] not in gf.groupings:
+                gf.groupings.setdefault(ig[2], None)
+                if gf.groupings[ig[2]] is None and w.stable():
                     body.append(ig)
                     gf.groupings[ig[2]] = ig
+                    w.uses_log.append((gf.child([], "container"), ig[2], ig))
                     w.home[id(ig)] = gf
                     w.level[id(ig)] = 0
                     body.append(("container", w.name("u"), None, [uses(ig[2], ig)]))
-            home.body.append(g)
+                elif gf.groupings[ig[2]] is None:
+                    del gf.groupings[ig[2]]
             home.groupings[nm] = g
+            if not w.stable():
+                del home.groupings[nm]
+                del w.uses_log[log_mark:]
+                continue
+            home.body.append(g)
             w.home[id(g)] = home
             w.level[id(g)] = lvl
             w.groupings.append(g)
